@@ -51,6 +51,8 @@ func checkC09(r *harness.Run) harness.Coverage {
 	// strings that share a multi-byte prefix and differ after it (byte offset vs code-point index)
 	uniArrays = append(uniArrays, arraysOver(univ.Js(`"éb"`, `"éa"`, `"éc"`, `"é"`, `"😀b"`, `"😀a"`), 3)...)
 	anys := univ.Js(`null`, `true`, `false`, `0`, `1`, `-0.5`, `"a"`, `""`, `"é\"\\"`, `[]`, `[1]`, `[[1]]`, `[null]`, `{}`, `{"a":1}`, `{"b":[1,{"c":null}]}`, `1e21`, `1e-7`, `[1.5,"x"]`, `["lit \\u003c <", {"\\u0026": "&"}]`)
+	// control characters, DEL and the line separators NESTED in containers (to_string must produce JSON text for them too)
+	anys = append(anys, univ.Js(`["\u0001\u0007\u000b\u007f"]`, `{"\u0001": "\u001f\u0000", "k": ["\u2028\u2029", "\u001b[0m"]}`, `"\u0001\u007f"`, `[["\b\f\n\r\t\u000e"]]`)...)
 	hetero := arraysOver(univ.Js(`null`, `1`, `"a"`, `[1]`, `{"a":1}`, `true`), 3)
 	// objects of equal size with different key sets, null under the extra key; nested
 	objElems := univ.Js(`{"a":null}`, `{"b":null}`, `{"a":null,"b":1}`, `{"b":1,"c":2}`, `{"a":1,"b":null}`, `{"a":{"a":null}}`, `{"a":{"b":null}}`, `[{"a":null}]`, `[{"b":null}]`, `{}`, `null`)
@@ -193,6 +195,21 @@ func checkC09(r *harness.Run) harness.Coverage {
 			}
 		}
 	}
+	// two DIFFERENT functions over the same field in one expression and in both orders (a conversion of the argument
+	// that one of them caches, sorts or consumes in place must not be what the other one sees)
+	unaryArr := []string{"sort(a)", "join('-', a)", "max(a)", "min(a)", "reverse(a)", "length(a)", "to_array(a)", "to_string(a)", "a[0]", "sort_by(a, &@)", "max_by(a, &@)", "map(&@, a)", "not_null(a)", "contains(a, a[0])", "a[::-1]", "sum(b)", "avg(b)", "sort(b)", "max(b)", "reverse(b)", "b[0]", "sort_by(b, &@)", "join(',', sort(a))"}
+	var fpairs []exprCase
+	for _, f := range unaryArr {
+		for _, g2 := range unaryArr {
+			if f != g2 {
+				fpairs = append(fpairs, exprFromText("["+f+", "+g2+"]"))
+			}
+		}
+	}
+	stf := conform(r, fpairs, univ.Js(`{"a":["c","a","b"],"b":[3,1,2]}`, `{"a":["b","a"],"b":[2,1]}`, `{"a":["a","b","c"],"b":[1,2,3]}`, `{"a":["b"],"b":[0]}`, `{"a":[],"b":[]}`, `{"a":["b","a","b","a"],"b":[2,1,2,1]}`), conformOpts{})
+	total.add(stf)
+	nexpr += len(fpairs)
+	r.Note("function_pairs_over_one_field", len(fpairs))
 	// two calls of the same VARIADIC function with different argument counts in one expression, in both
 	// orders and nested (a signature padded for the wider call must not stick to the narrower one)
 	vargs := []string{"a", "b", "c", "a", "b"}
